@@ -128,6 +128,15 @@ type strategy struct {
 	choices []string
 }
 
+// recvOfSite extracts the receiver expression from `<func>|<Kind>:<recv>[#Woke]`.
+func recvOfSite(site string) string {
+	i := strings.Index(site, ":")
+	if i < 0 {
+		return ""
+	}
+	return strings.TrimSuffix(site[i+1:], "#Woke")
+}
+
 // Rng is splitmix64 (the same generator as the case generators).
 type Rng struct{ s uint64 }
 
@@ -154,6 +163,10 @@ func exploreOnce(s *session, st strategy) (*sx.Node, int) {
 	sites := sx.L(sx.A("sites"))
 	cur := ""
 	steps := 0
+	// the lock discipline of the shared encoder (coq/ATP/Wire.v, C05_wire_framed): a goroutine passes an Encode gate of
+	// c.encoder - and hands pieces of a Write to the transport - only between its own Lock and Unlock gates of c.mutex
+	held := map[string]bool{}
+	lockfree := ""
 	for ; steps < 3000; steps++ {
 		en := r.enabled()
 		if len(en) == 0 {
@@ -191,6 +204,19 @@ func exploreOnce(s *session, st strategy) (*sx.Node, int) {
 		}
 		cur = pick.name
 		site := r.takeStep(pick)
+		if pick.role != nil {
+			kind, recv := kindOfSite(site), recvOfSite(site)
+			switch {
+			case kind == "Lock" && recv == "c.mutex":
+				held[pick.name] = true
+			case kind == "Unlock" && recv == "c.mutex":
+				held[pick.name] = false
+			case (kind == "Encode" && recv == "c.encoder") || kind == "WChunk":
+				if !held[pick.name] && lockfree == "" {
+					lockfree = pick.name + " passed " + site + " without holding c.mutex (its own gate trace has no Lock of c.mutex since its last Unlock)"
+				}
+			}
+		}
 		trace.Append(sx.A(pick.name))
 		sites.Append(sx.S(pick.name + " " + site))
 	}
@@ -217,6 +243,10 @@ func exploreOnce(s *session, st strategy) (*sx.Node, int) {
 		}
 	}
 	r.mu.Unlock()
+	if g := r.wireGarbled(true); g != "" && wrong == "" {
+		// C05: results are never corrupted by interleaved writes - reported through the `wrong` slot of the summary
+		wrong = g
+	}
 	return sx.L(sx.A("xobs"), sx.L(sx.A("stuck"), sx.B(stuck)), sx.L(sx.A("double"), sx.B(double)), obs, trace, sites,
-		sx.L(sx.A("wrong"), sx.B(wrong != ""), sx.S(wrong))), steps
+		sx.L(sx.A("wrong"), sx.B(wrong != ""), sx.S(wrong)), sx.L(sx.A("lockfree"), sx.B(lockfree != ""), sx.S(lockfree))), steps
 }
